@@ -74,6 +74,11 @@ def array_spec(draw, size, dtype, fuzzy=False, pool=None, mask_kind=None, payloa
         base = st.one_of(lattice_floats(-1, 1), lattice_floats(-4, 4), st.sampled_from([1e6, -250.0, 1e20, 999999.0]))
     elif fuzzy:
         base = lattice_floats(-1, 1)
+    elif dtype.startswith("uint"):
+        # unsigned data (what the NetCDF reader delivers for "Positive Integer"): differences below zero must not wrap around
+        base = st.one_of(st.integers(0, 16), st.integers(0, 250))
+    elif dtype == "int16":
+        base = st.one_of(lattice_ints(), lattice_ints(), st.sampled_from([20000, -20000, 32767, -32768, 300]))
     elif dtype == "int64" and big_ints:
         # integers whose pairwise products leave the range in which doubles are exact (2^53) while products with the
         # small values of up to three further inputs stay inside the 64-bit integers
@@ -90,8 +95,10 @@ def array_spec(draw, size, dtype, fuzzy=False, pool=None, mask_kind=None, payloa
         base = lattice_floats()
     elems = base if not pool else (st.sampled_from(pool) if pool_only else st.one_of(st.sampled_from(pool), base))
     data = draw(st.lists(elems, min_size=size, max_size=size))
-    if dtype.startswith("int"):
+    if dtype.startswith("int") or dtype.startswith("uint"):
         data = [int(x) for x in data]
+        if dtype.startswith("uint"):
+            data = [abs(x) for x in data]  # (values taken from a shared pool may be negative)
     elif dtype == "float32":
         import numpy as _np
 
@@ -101,7 +108,7 @@ def array_spec(draw, size, dtype, fuzzy=False, pool=None, mask_kind=None, payloa
         data = [float(x) for x in data]
     mask = draw(mask_for(size, mask_kind))
     if mask is not None and payload:
-        payloads = INT_PAYLOADS if dtype.startswith("int") else FLOAT_PAYLOADS
+        payloads = [abs(x) for x in INT_PAYLOADS if abs(x) < 2 ** 15] if dtype.startswith("uint") or dtype == "int16" else INT_PAYLOADS if dtype.startswith("int") else FLOAT_PAYLOADS
         if dtype == "int32":
             payloads = [x for x in payloads if abs(x) < 2 ** 31]
         if dtype == "float32":
@@ -271,11 +278,11 @@ def unit_case(draw, cmds, max_rank=1, dtypes=("float64", "int64"), wild=False, m
     for i in range(n):
         dtype = draw(st.sampled_from([d for d in dtypes if d.startswith("float")] or ["float64"])) if fuzzy else draw(st.sampled_from(list(dtypes)))
         if close_used:
-            dtype = {"float32": "float64", "int32": "int64"}.get(dtype, dtype)
+            dtype = {"float32": "float64", "int32": "int64", "int16": "int64"}.get(dtype, dtype)
         if same_dtype and first_dtype:
             dtype = first_dtype
         first_dtype = first_dtype or dtype
-        use_pool = [int(x) for x in pool] if dtype.startswith("int") else [float(x) for x in pool]
+        use_pool = [int(x) for x in pool] if dtype.startswith("int") else [abs(int(x)) for x in pool] if dtype.startswith("uint") else [float(x) for x in pool]
         spec = draw(array_spec(size, dtype, fuzzy=fuzzy, pool=use_pool, mask_kind=mask_kind, wide=wide and not fuzzy, tiny=tiny, fuzzy_wild=fuzzy_wild,
                                pool_only=close_used and draw(st.booleans()), big_ints=tiny and i < 2))
         if two_distinct and size >= 2:
@@ -289,6 +296,8 @@ def unit_case(draw, cmds, max_rank=1, dtypes=("float64", "int64"), wild=False, m
                     if b == a:
                         b = a - 0.25
                 vals = [int(a), int(a) + (1 if int(b) <= int(a) else int(b) - int(a))] if dtype.startswith("int") else [a, b]
+                if dtype.startswith("uint"):
+                    vals = [abs(int(a)), abs(int(a)) + 1 + abs(int(b))]
                 spec["data"][i], spec["data"][j] = vals
                 if spec["mask"] is not None:
                     spec["mask"] = list(m)
